@@ -5,6 +5,10 @@ import json, os, re, subprocess
 ROOT = os.path.dirname(os.path.dirname(os.path.abspath(__file__)))
 RULES = [
  (r"^fix: C interface", "C20"),
+ (r"^fix: Pointset_Powerset::simplify_using_context_assign", "C09"),
+ (r"^fix: Interval::simplify_using_context_assign", "C04"),
+ (r"^fix: Grid::simplify_using_context_assign", "C05"),
+ (r"^fix: Polyhedron::simplify_using_context_assign", "C01"),
  (r"generator_widening_assign|Certificate::compare", "C08"),
  (r"BD_Shape limited extrapolations divided by zero|CC76_widening_assign\(\) did not check the dimension|map_space_dimensions\(\) of an empty powerset", "C20"),
  (r"update_generators\(\)/update_constraints\(\) cut short", "C14"),
